@@ -306,9 +306,29 @@ func checkOneTokenPerWord(c *Ctx, p *core.Prog, rule string) {
 		for _, lit := range structLits([]*ssa.Function{f}, "/v2.indexedToken") {
 			n++
 			d := loopDepthOf(lit.alloc.Block())
+			// when the tokens are made from an intermediate list of words, that list gets at most one entry per
+			// buffered word too
+			for _, b := range f.Blocks {
+				for _, in := range b.Instrs {
+					call, ok := in.(*ssa.Call)
+					if !ok {
+						continue
+					}
+					bi, isB := call.Call.Value.(*ssa.Builtin)
+					if !isB || bi.Name() != "append" || len(call.Call.Args) < 2 {
+						continue
+					}
+					if sl, isSl := call.Call.Args[0].Type().Underlying().(*types.Slice); !isSl || !isString(sl.Elem()) {
+						continue
+					}
+					if da := loopDepthOf(call.Block()); da > d {
+						d = da
+					}
+				}
+			}
 			c.R.Check(d <= 1, rule, core.ShortFn(f)+": at most one token is produced per buffered word", p.Pos(lit.alloc.Pos()),
-				fmt.Sprintf("the token literal lies in %d loop(s)", d),
-				fmt.Sprintf("the token literal lies in %d nested loops: one buffered word can yield several tokens, so token indices can reach or exceed the number of input words", d))
+				fmt.Sprintf("the token literal and the list of cleaned words it is made from are filled in loops of depth %d", d),
+				fmt.Sprintf("a token (or an entry of the word list the tokens are made from) is produced in %d nested loops: one buffered word can yield several tokens, so token indices can reach or exceed the number of input words", d))
 		}
 	}
 	c.R.RequireMin(rule, "token literals in stringifyLineBuf", n, 1)
